@@ -36,6 +36,19 @@ def root_name(e):
 
 
 FRESH_BUILTINS = {'dict', 'list', 'set', 'tuple', 'bytearray', 'frozenset', 'float', 'int', 'str', 'sorted', 'range'}
+# standard-library containers whose constructor returns a new object (resolved through the module's imports, so aliases count)
+FRESH_STDLIB = {'collections.defaultdict', 'collections.OrderedDict', 'collections.Counter', 'collections.deque'}
+
+
+def _fresh_stdlib_call(fi, model, call):
+    """collections.defaultdict(<builtin container type>) / OrderedDict(...) / Counter(...) / deque(...): a new container.  A
+    defaultdict is only accepted with a builtin factory and no initial content: its values are then new objects as well."""
+    r = model.resolve(fi.module, call.func) if model is not None else None
+    if r not in FRESH_STDLIB:
+        return False
+    if r == 'collections.defaultdict':
+        return not call.keywords and len(call.args) <= 1 and all(isinstance(a, ast.Name) and a.id in FRESH_BUILTINS or (isinstance(a, ast.Constant) and a.value is None) for a in call.args)
+    return True
 
 
 def fresh_names(fi, model=None):
@@ -76,6 +89,8 @@ def fresh_names(fi, model=None):
                 if f in FRESH_BUILTINS or f.startswith(('np.', 'numpy.')):
                     ok = True
                 elif model is not None and (model.resolve_call(fi, v) in model.classes):
+                    ok = True
+                elif _fresh_stdlib_call(fi, model, v):
                     ok = True
                 elif f[:1].isupper() and '.' not in f:
                     ok = True          # constructor-style call of a class imported from elsewhere
